@@ -136,6 +136,8 @@ class Check:
             confirmed, detail = h.native_violation(v['assignment'], self.replay)
         except Exception as e:
             confirmed, detail = None, {'error': 'replay crashed: %r' % (e,), 'tb': traceback.format_exc()[-800:]}
+        if confirmed and hasattr(h, 'confirm_role'):
+            confirmed = h.confirm_role(v, detail)
         if confirmed:
             role = h.role_of(v, conc, detail) if hasattr(h, 'role_of') else None
             kf = self.match_known(role, conc, detail)
